@@ -145,6 +145,13 @@ fam(EnumFamily('idle_enum', ('C15',), gen.idle_base, gen.idle_derive, 16, 250, 4
 fam(ScenarioFamily('history_deep', BUS_PROPS, gen.history_deep_scenario, 300, 4000))
 fam(EnumFamily('stop_enum', ('C16', 'C05', 'C06'), gen.stop_base, gen.stop_derive, 12, 200, 40, 150))
 fam(EnumFamily('cancel_enum', ('C16',), gen.stop_base, gen.cancel_derive, 6, 80, 30, 100))
+def _second_loop_scenario(rng, i):
+    sc = gen.random_scenario(rng, gen.cfg(nb=(1, 3), p_fwd=0.2, p_par=0.2, actor_await=0.6, p_raise=0.1))
+    sc['second_loop'] = True
+    return sc
+
+
+fam(ScenarioFamily('second_loop', ('C08',), _second_loop_scenario, 200, 2000))
 fam(ScenarioFamily('gather', ('C04',), gen.gather_scenario, 300, 3000))
 fam(ScenarioFamily('late_on', ('C01', 'C09', 'C11', 'C03'), gen.late_on_scenario, 300, 3000))
 fam(EnumFamily('waitfor_enum', ('C15',), gen.waitfor_base, gen.waitfor_derive, 16, 200, 40, 120))
@@ -166,6 +173,7 @@ CHECKS['C15'].families.append('idle_enum')
 for _p in ('C01', 'C09', 'C11', 'C03'):
     CHECKS[_p].families.append('late_on')
 CHECKS['C04'].families.append('gather')
+CHECKS['C08'].families.append('second_loop')
 CHECKS['C15'].families += ['timeout_enum', 'waitfor_enum']  # 'whatever happened to earlier events': handler timeouts, user-bounded awaits
 for _p in ('C01', 'C03', 'C04', 'C13', 'C15'):
     CHECKS[_p].families.append('history_deep')
@@ -202,11 +210,12 @@ chk(Check('C12', 'exploration', ['typed_results'],
           'typed results: 24 declared result types (builtins, containers, unions/Optional/Literal, pydantic models, nested) declared three ways (event_result_type kwarg, BaseEvent[T] generic parameter, class field) x generated returned values (conforming, coercible, nearly-conforming, None, exception objects, events), each driven through a real bus; accessors: generated result multisets (0-5 handlers: values, None, dicts, lists, raising, returned exceptions, forwarded events, duplicate names) x all 8 flag combinations x include refinements x 7 accessors; distinct = distinct (type,value,how) / outcome lists',
           'reference-model differential on the real bus: pydantic TypeAdapter as referee for typed results (lax validate = expected outcome, strict validate of the stored value), 60-line reference implementation of the accessors written from the README', [A_VT, 'include predicates only refine the default filter (the library asserts on predicates that admit None/error results)', 'pydantic lax validation is the documented coercion semantics']))
 
-from .c19 import RetryFamily, SemFamily
+from .c19 import RetryConcurrentFamily, RetryFamily, SemFamily
 
 fam(RetryFamily())
+fam(RetryConcurrentFamily())
 fam(SemFamily())
-chk(Check('C19', 'fault_enumeration', ['retry_timetable'],
+chk(Check('C19', 'fault_enumeration', ['retry_timetable', 'retry_concurrent'],
           {'c19_cases': {'quick': 3000, 'thorough': 40000}, 'c19_attempts_checked': {'quick': 3000, 'thorough': 20000}, 'c19_cancellations': {'quick': 1500, 'thorough': 30000}},
           'EXHAUSTIVE per-attempt outcome sequences over {success, listed exception (incl. subclass), unlisted exception, overrun} for retries 0..3 (prefix-closed) x parameter grid (wait, backoff_factor incl. <1, timeout, retry_on None/tuple) [quick: 4 grid points, thorough: 18]; random large cases (retries<=7); caller cancellation at every instant +-1e-4 and midpoints of the reference timetable; each case: call instants, count, returned value / raised exception identity and instant compared with a reference timetable in exact virtual time (1e-9)',
           'reference-model differential in exact virtual time (retry timetable) with exhaustive small-scope enumeration of outcome sequences and enumerated cancellation instants', [A_VT, 'timer jitter off for exact arithmetic', 'attempt durations never tie with the per-attempt timeout']))
